@@ -218,7 +218,7 @@ example : msupply nvMW0 nvKey = 3 ∧ msupply nvMW0 nvFKey = 10 ∧
 theorem nvFEntry_dec : decToken (encToken nvFEntry) = some nvFEntry := by decide +kernel
 
 /-- … and that initial world meets the hypothesis `MWorldInv` -/
-example : MWorldInv nvEnv nvMW0 := by
+theorem nvMW0_inv : MWorldInv nvEnv nvMW0 := by
   have hread : ∀ a k, nvMA0.read a k =
       if nvAlice = a ∧ nvFKey = k then encToken nvFEntry else if nvAlice = a ∧ nvKey = k then encToken nvEntry else [] := by
     intro a k; unfold nvMA0; rw [Accts.read_write, Accts.read_write]; rfl
